@@ -1862,6 +1862,15 @@ bool tNMEA2000::TestHandleTPMessage(unsigned long PGN, unsigned char Source, uns
         uint8_t TPMaxPackets=buf[Index++];
         //Index++; // reserved
 
+        // A source has at most one open transfer per destination: a new announce replaces an unfinished one.
+        // Otherwise data packets of the new transfer would be matched to the abandoned one.
+        for (MsgIndex=0; MsgIndex<MaxN2kCANMsgs; MsgIndex++) {
+          if ( !N2kCANMsgBuf[MsgIndex].FreeMsg && N2kCANMsgBuf[MsgIndex].N2kMsg.IsTPMessage()
+               && N2kCANMsgBuf[MsgIndex].N2kMsg.Source==Source && N2kCANMsgBuf[MsgIndex].N2kMsg.Destination==Destination ) {
+            N2kCANMsgBuf[MsgIndex].FreeMessage();
+          }
+        }
+
         FindFreeCANMsgIndex(TransportPGN,Source,Destination,true,MsgIndex);
 
         if (MsgIndex==MaxN2kCANMsgs) { // No free msg place
